@@ -109,6 +109,16 @@ pub fn footer_catalogue() -> Vec<String> {
         "-_".into(),
         "\u{7f}".into(),
         "\u{80}".into(),
+        // base64 of these uses the sextets 62/63 ('-' '_' in base64url, '+' '/' in standard base64)
+        "ab?".into(),
+        "id>42".into(),
+        "~~~".into(),
+        "???>>>".into(),
+        "\u{bf}\u{ff}".into(),
+        "{\"jku\":\"https://example.com/keys?id=1~2\"}".into(),
+        // U+FFFD itself (what a lossy UTF-8 decoder produces for every invalid sequence)
+        "kid:\u{FFFD}7".into(),
+        "\u{FFFD}".into(),
         // blank but NOT empty
         " ".into(),
         "  ".into(),
